@@ -88,9 +88,9 @@ theorem stepOp_nf {W : World} (h : NoFail W) (d : Dbg) :
     stepOp W d = (.ok (), emit { bump d .step with t := cpuStep W d.t } (.step true)) := by
   simp [stepOp, h .step]
 
-theorem contOp_nf {W : World} (h : NoFail W) (d : Dbg) :
+theorem contOp_nf {W : World} (h : NoFail W) (d : Dbg) (hclean : runsPatched W d.t = false) :
     contOp W d = (.ok (), emit { bump d .cont with t := cpuCont W d.t } (.cont true)) := by
-  simp [contOp, h .cont]
+  simp [contOp, h .cont, hclean]
 
 @[simp] theorem emit_t (d : Dbg) (e : Ev) : (emit d e).t = d.t := rfl
 @[simp] theorem emit_bps (d : Dbg) (e : Ev) : (emit d e).bps = d.bps := rfl
@@ -216,7 +216,8 @@ def postCall (W : World) (c : Ccx) (rip fnAddr : Nat) (args : List Nat) (t : Tra
   { (W.callee (atEntry (preCall c rip fnAddr args t))) with
     regs := (W.callee (atEntry (preCall c rip fnAddr args t))).regs.set Rip (rip + 3) }
 
-theorem callTramp_ok {W : World} (h : NoFail W) (c : Ccx) (rip fnAddr : Nat) (args : List Nat) (d : Dbg) :
+theorem callTramp_ok {W : World} (h : NoFail W) (c : Ccx) (rip fnAddr : Nat) (args : List Nat) (d : Dbg)
+    (hclean : runsPatched W (preCall c rip fnAddr args d.t) = false) :
     (callTramp W c rip fnAddr args d).1 = .ok () ∧ (callTramp W c rip fnAddr args d).2.bps = d.bps
     ∧ (callTramp W c rip fnAddr args d).2.t = postCall W c rip fnAddr args d.t := by
   have hr0 : (((prepare c.regs args).set Rax fnAddr).set Rip rip) Rip = rip := by simp [RegFile.set]
@@ -225,10 +226,12 @@ theorem callTramp_ok {W : World} (h : NoFail W) (c : Ccx) (rip fnAddr : Nat) (ar
   have hstep : cpuCont W (preCall c rip fnAddr args d.t) = postCall W c rip fnAddr args d.t := by
     rw [cpuCont_call W (preCall c rip fnAddr args d.t) (by simp [preCall, hr0, peek_poke_same _ _ _ hlt, hcall])]
     simp [postCall, preCall, hr0]
-  simp only [callTramp, bind_eq, setregsOp_nf h, pokeOp_nf h, contOp_nf h, emit_t]
+  simp only [callTramp, bind_eq, setregsOp_nf h, pokeOp_nf h, emit_t]
   have e : ({ regs := ((prepare c.regs args).set Rax fnAddr).set Rip rip, mem := poke d.t.mem rip CALL_FN, pages := d.t.pages,
               entered := d.t.entered, wild := d.t.wild } : Tracee) = preCall c rip fnAddr args d.t := rfl
-  simp only [e, hstep]
+  simp only [e]
+  rw [contOp_nf h _ (by simpa using hclean)]
+  simp only [emit_t, hstep]
   refine ⟨?_, ?_, ?_⟩ <;> first | exact True.intro | rfl
 
 /-- `CallHelper::munmap` -/
@@ -262,9 +265,11 @@ theorem munmapH_ok {W : World} (h : NoFail W) (c : Ccx) (addr : Nat) (d : Dbg) (
 /-- the saved context of a call made in thread state `t0` at `pc` -/
 def ccxOf (pc : Addr) (t0 : Tracee) : Ccx := ⟨pc, t0.regs, peek t0.mem pc⟩
 
-/-- the thread at the callee's first instruction -/
+/-- the thread right before the `cont` / at the callee's first instruction -/
+def preEntryT (W : World) (pc fnAddr : Nat) (args : List Nat) (t0 : Tracee) : Tracee :=
+  preCall (ccxOf pc t0) W.mmapRes fnAddr args (postJump (ccxOf pc t0) W.mmapRes (postMmap W.mmapRes (ccxOf pc t0) t0))
 def entryT (W : World) (pc fnAddr : Nat) (args : List Nat) (t0 : Tracee) : Tracee :=
-  atEntry (preCall (ccxOf pc t0) W.mmapRes fnAddr args (postJump (ccxOf pc t0) W.mmapRes (postMmap W.mmapRes (ccxOf pc t0) t0)))
+  atEntry (preEntryT W pc fnAddr args t0)
 
 /-- the thread after the complete successful `call_fn_raw` -/
 def finalT (W : World) (pc fnAddr : Nat) (args : List Nat) (t0 : Tracee) : Tracee :=
@@ -278,7 +283,8 @@ theorem res_of_fst {α} {x : Res α × Dbg} {r : Res α} (h : x.1 = r) : x = (r,
 
 theorem callFnRaw_ok {W : World} (h : NoFail W) (pc fnAddr : Nat) (args : List Nat) (d : Dbg)
     (hb : Bytes d.t.mem) (hrip : d.t.regs Rip = pc) (hp : W.mmapRes < W64 - 4095)
-    (hcallee : ∀ t, (W.callee t).pages = t.pages) :
+    (hcallee : ∀ t, (W.callee t).pages = t.pages)
+    (hclean : runsPatched W (preEntryT W pc fnAddr args d.t) = false) :
     (callFnRaw W pc fnAddr args d).1 = .ok () ∧ (callFnRaw W pc fnAddr args d).2.bps = d.bps
     ∧ (callFnRaw W pc fnAddr args d).2.t = finalT W pc fnAddr args d.t := by
   have hc : (ccxOf pc d.t).text < W64 := peek_lt _ _ hb
@@ -294,6 +300,7 @@ theorem callFnRaw_ok {W : World} (h : NoFail W) (pc fnAddr : Nat) (args : List N
   obtain ⟨m1, m2, m3⟩ := mmapH_ok h (ccxOf pc d.t) d1 hc hp hr
   obtain ⟨j1, j2, j3⟩ := jumpH_ok h (ccxOf pc d.t) W.mmapRes (mmapH W (ccxOf pc d.t) d1).2 hc hr
   obtain ⟨c1, c2, c3⟩ := callTramp_ok h (ccxOf pc d.t) W.mmapRes fnAddr args (jumpH W (ccxOf pc d.t) W.mmapRes (mmapH W (ccxOf pc d.t) d1).2).2
+    (by rw [j3, m3, ht1]; exact hclean)
   generalize hdA : (mmapH W (ccxOf pc d.t) d1).2 = dA at *
   generalize hdB : (jumpH W (ccxOf pc d.t) W.mmapRes dA).2 = dB at *
   generalize hdC : (callTramp W (ccxOf pc d.t) W.mmapRes fnAddr args dB).2 = dC at *
